@@ -291,7 +291,12 @@ class Expr:
             elif e.k == "call" and is_transparent(e.x["path"]) and e.a:
                 e = e.a[0]
             elif e.k == "field" and e.x["name"] == "0" and e.a[0].k == "downcast" and e.a[0].x["variant"] == "Continue" and e.a[0].a[0].k == "call" and e.a[0].a[0].x["path"].endswith("Try>::branch") and e.a[0].a[0].a:
-                e = e.a[0].a[0].a[0]  # `x?` -> x (the Ok/Some payload of x)
+                br = e.a[0].a[0]
+                x = br.a[0]
+                # `x?` -> the Ok/Some payload of x when x's construction is visible (a join of Ok(v) and Err(..):
+                # only the Ok side continues), otherwise x itself stands for its payload
+                pv = _constructed_payload(x, "Some" if "option::Option" in br.x["path"] else "Ok", 0) if x.k in ("phi", "agg") else None
+                e = pv if pv is not None else x
             elif e.k == "field" and e.x["name"] == "0" and e.a[0].k == "downcast" and e.a[0].x["variant"] == "Ok" and e.a[0].a[0].strip().k == "call":
                 e = e.a[0].a[0]  # `match r { Ok(x) => x, Err(e) => return Err(e) }` -> r (the Ok payload of r)
             elif e.k == "phi" and len({c.show() for c in e.a}) == 1:
